@@ -36,7 +36,7 @@ class SysBase:
     def coq_case(self, c, out):
         offered = "true" if self._offered[c.line] else "false"
         sole = self._sole.get(c.line)
-        sole = "None" if sole is None else "(Some %d)" % sole
+        sole = "None" if sole is None else "(Some (%d, %d))" % tuple(sole)
         out = out.strip()
         if out in ("MANAGERPANIC", "BADTORRENT"):
             return "CSys %s %s [] None" % (offered, sole)
